@@ -66,7 +66,7 @@ Fixpoint pexec_obs (p : op) : M (loc * list onode) :=
   | OrderRows s by_ rev limit => un KOrderRows (pexec_obs s) (step_order_rows by_ rev limit)
   | MapCols s m dels => un KMapCols (pexec_obs s) (step_map_cols m dels)
   | Rename s m => un KRename (pexec_obs s) (step_rename m)
-  | NaturalJoin a b on_a on_b jt nr => bin KJoin (pexec_obs a) (pexec_obs b) (step_join on_a on_b jt nr)
+  | NaturalJoin a b on_a on_b jt nk nr => bin KJoin (pexec_obs a) (pexec_obs b) (step_join on_a on_b jt nk nr)
   | ConcatRows a b idcol => bin KConcat (pexec_obs a) (pexec_obs b) (step_concat idcol)
   | ConvertRecords s hi ho mc oc nm nr => un KConvert (pexec_obs s) (step_convert hi ho mc oc nm nr)
   end.
